@@ -75,8 +75,15 @@ fn recognize_http(method: &str, mut path: &str) -> Result<Proxy, anyhow::Error> 
     if path.ends_with('/') {
         path = &path[..path.len() - 1];
     }
-    if let Some(i) = path.find("://").map(|i| i + 3) {
-        if let Some(j) = path[i..].find('/').map(|j| j + i) { path = &path[i..j] } else { path = &path[i..] }
+    match path.find("://") {
+        // "scheme://authority/...": a '/' before the separator means it belongs to the path of an origin-form target
+        Some(s) if !path[..s].contains('/') => {
+            let i = s + 3;
+            if let Some(j) = path[i..].find('/').map(|j| j + i) { path = &path[i..j] } else { path = &path[i..] }
+        }
+        // only CONNECT names its target without a scheme (authority-form)
+        _ if "CONNECT" == method && !path.contains('/') => {}
+        _ => bail!("unsupported request target"),
     }
     if "CONNECT" == method {
         let h_end = path.rfind(':').ok_or_else(|| anyhow!("invalid http CONNECT uri"))?;
